@@ -11,6 +11,7 @@ import (
 	"strings"
 
 	"reduction.dev/reduction/dkv/recovery"
+	dkvstorage "reduction.dev/reduction/dkv/storage"
 	"reduction.dev/reduction/proto/snapshotpb"
 	"reduction.dev/reduction/storage/locations"
 )
@@ -57,7 +58,7 @@ func CreateSavepointArtifact(fs locations.StorageLocation, savepointsPath string
 
 // Copy files from a savepoint into place to be read as checkpoints.
 func RestoreCheckpointFromSavepointArtifact(fs locations.StorageLocation, savepointURI string, jobCheckpoint *snapshotpb.JobCheckpoint) error {
-	spDir := filepath.Dir(savepointURI)
+	spDir := uriDir(savepointURI)
 
 	for _, opCkpt := range jobCheckpoint.GetOperatorCheckpoints() {
 		opID, baseFileName, err := parseDKVURI(opCkpt.DkvFileUri)
@@ -66,7 +67,7 @@ func RestoreCheckpointFromSavepointArtifact(fs locations.StorageLocation, savepo
 		}
 
 		// Read the checkpoints data
-		checkpointsPath := filepath.Join(spDir, "dkv", opID, baseFileName)
+		checkpointsPath := dkvstorage.Join(spDir, "dkv", opID, baseFileName)
 		cpData, err := fs.Read(checkpointsPath)
 		if err != nil {
 			return fmt.Errorf("reading checkpoints file (%s): %v", checkpointsPath, err)
@@ -86,7 +87,7 @@ func RestoreCheckpointFromSavepointArtifact(fs locations.StorageLocation, savepo
 			}
 
 			// Source is a file referenced by a DKV checkpoint that's been copied to the savepoint directory
-			src := filepath.Join(spDir, "dkv", opPrefix, baseFileName)
+			src := dkvstorage.Join(spDir, "dkv", opPrefix, baseFileName)
 			if err := fs.Copy(src, file); err != nil {
 				return err
 			}
@@ -94,6 +95,20 @@ func RestoreCheckpointFromSavepointArtifact(fs locations.StorageLocation, savepo
 	}
 
 	return nil
+}
+
+// uriDir returns the directory of a savepoint URI. Unlike filepath.Dir it keeps
+// the "//" of a scheme ("s3://bucket/..."), which the storage location needs to
+// recognize the result as a URI.
+func uriDir(uri string) string {
+	i := strings.LastIndex(uri, "/")
+	if i < 0 {
+		return "."
+	}
+	if i == 0 {
+		return "/"
+	}
+	return uri[:i]
 }
 
 // Expect all URIs to end with an operator id followed by the specific file name.
